@@ -21,7 +21,7 @@ func init() {
 			"seq: random sequential programs (Put/NewConsumer/Get/Commit/Rollback/Close/Slice/Size/Diff) on a cooldown-0 Buffer under Default/Fixed cleaners (grid incl. target 0, target=max, target>max, negative target) compared step by step with the eager-cleaner sequential model (exact offset, size, Get/Diff/Slice results, sticky 'past' errors); " +
 			"long: concurrent runs with the cleaner wrapped by an online monitor (reference result, never evict beyond the smallest committed offset, nothing without consumers), VerifSnapshot invariants, over-asking/under-asking custom cleaners (clamp); " +
 			"short: porcupine against the model with forced trims. membership-change-during-cleaner-evaluation: a pass-through default cleaner holds open the evaluation that is about to report a shift while the only committed consumer closes and a new consumer is created (and the other orders): the newcomer has committed nothing, so every value from its start on must still be readable. " +
-			"slice-is-a-copy: what Slice returned is overwritten and appended to by its caller (open buffer, after evictions, after Close): the next Slice still equals the retained suffix. non-trivial = at least one eviction or one 'past' error was observed; distinct = distinct traces/signatures",
+			"concurrent-first-use: on thousands of zero-value Buffers the first NewConsumer races other first calls (Size/Slice/Put of nothing) from a start barrier; the consumer handed out must be registered (Diff = values put, its values retained while others commit everything, its Get succeeds). slice-is-a-copy: what Slice returned is overwritten and appended to by its caller (open buffer, after evictions, after Close): the next Slice still equals the retained suffix. non-trivial = at least one eviction or one 'past' error was observed; distinct = distinct traces/signatures",
 		Assumptions: []string{
 			"the cleaner is configured before the first operation (a cleaner installed after the last state change is not applied until the next change: out of scope, DESIGN.md §6)",
 			"the sequential family waits (bounded) for the asynchronous cleaner to reach its fixpoint before the next operation; a cleaner that never gets there is C04's subject and is counted as lagging here",
@@ -33,6 +33,7 @@ func init() {
 			{Name: "short-fixed-porcupine", N: core.TierN(800, 48000), Batch: 60, Run: c03Short},
 			{Name: "membership-change-during-cleaner-evaluation", N: core.TierN(80, 3200), Batch: 20, Run: c03MembershipDuringCleaner},
 			{Name: "slice-is-a-copy", N: core.TierN(60, 2400), Batch: 30, Run: c03SliceCopy},
+			{Name: "concurrent-first-use", N: core.TierN(12, 480), Batch: 3, Run: c03FirstUse},
 		},
 	})
 }
@@ -398,4 +399,70 @@ func c03SliceCopy(c *core.Ctx) {
 	c.Op("slice", 6)
 	c.Nontrivial()
 	c.Sig("slice-copy", cs.String(), n, reads, closed)
+}
+
+// raceFirstCalls runs the given first calls on one zero-value Buffer from a common start barrier.
+func raceFirstCalls(b *bigbuff.Buffer, calls ...func()) {
+	start := make(chan struct{})
+	done := make(chan struct{}, len(calls))
+	for _, f := range calls {
+		f := f
+		go func() {
+			<-start
+			f()
+			done <- struct{}{}
+		}()
+	}
+	close(start)
+	for range calls {
+		<-done
+	}
+}
+
+// c03FirstUse: the lazy initialiser under concurrent first use. A consumer created by one of the racing first calls is
+// an open consumer like any other: it stays registered.
+func c03FirstUse(c *core.Ctx) {
+	n := 600
+	if c.Thorough() {
+		n = 1500
+	}
+	for i := 0; i < n && !c.Violated(); i++ {
+		b := new(bigbuff.Buffer)
+		var c1 bigbuff.Consumer
+		var cerr error
+		others := []func(){func() { b.Size() }, func() { b.Slice() }, func() { b.Put(context.Background()) }, func() { b.Size() }}
+		c.Rng.Shuffle(len(others), func(i, j int) { others[i], others[j] = others[j], others[i] })
+		calls := append([]func(){func() { c1, cerr = b.NewConsumer() }}, others[:1+c.Rng.IntN(3)]...)
+		c.Rng.Shuffle(len(calls), func(i, j int) { calls[i], calls[j] = calls[j], calls[i] })
+		raceFirstCalls(b, calls...)
+		if cerr != nil {
+			c.Violate("newconsumer-error", "first NewConsumer on a zero-value Buffer: %v", cerr)
+			break
+		}
+		b.Put(context.Background(), 1, 2, 3)
+		if d, ok := b.Diff(c1); !ok || d != 3 {
+			c.Violate("consumer-not-registered", "buffer #%d: a consumer created by a first call that raced other first calls: Diff=(%d,%v) after 3 values were put, want (3,true)", i, d, ok)
+			b.Close()
+			break
+		}
+		c2, _ := b.NewConsumer()
+		for j := 0; j < 3; j++ {
+			c2.Get(context.Background())
+		}
+		c2.Commit()
+		time.Sleep(50 * time.Microsecond)
+		if sz := b.Size(); sz != 3 {
+			c.Violate("evicted-uncommitted", "buffer #%d: Size()=%d after another consumer committed everything, but the first consumer has read nothing of the 3 values", i, sz)
+		}
+		if v, err := c1.Get(context.Background()); err != nil || v != 1 {
+			c.Violate("consumer-not-registered", "buffer #%d: first consumer's Get returned (%v, %v), want 1", i, v, err)
+		}
+		c1.Rollback()
+		c1.Close()
+		c2.Close()
+		b.Close()
+	}
+	c.Op("first_use_race", n)
+	c.Nontrivial()
+	c.Sig("first-use", c.Index)
 }
